@@ -173,6 +173,50 @@ theorem next_attempt_succeeds_legacy (cfg : Cfg) (script : List Ev)
   dsimp only
   exact ⟨List.mem_append_right _ a.1, isConnected_of _ a.2.1.conn a.2.1.sess, a.2.1.auth, a.2.2.1⟩
 
+/-- **The next attempt succeeds — every conforming flow, every cut point.**  `Flow` lists the conforming server scripts
+(SASL PLAIN / SCRAM incl. the server-signature step / SASL2+bind2 / SASL2+FAST token / legacy, with or without STARTTLS, classic
+bind with `<enable/>`, `<resume/>` accepted, `<resume/>` refused followed by bind and `<enable/>`, see-other-host followed by a
+full flow); `fl.applicable cfg canResume` says that the configuration allows the flow and, for the resumption flows, that the
+client holds a resumable stream.  After ANY history that ends with a live connection (in particular: an earlier attempt cut at
+any point), cut + reconnect + the flow: `connected` is reported exactly once, by the last element; before it nothing is
+reported and `isConnected()` is false at every cut point `k` of the flow; no `disconnected`; the client ends connected and
+authenticated. -/
+theorem next_attempt_succeeds (fl : Flow) (cfg : Cfg) (script : List Ev)
+    (hc : (run (init cfg) script).1.conn = .connected)
+    (happ : fl.applicable cfg (run (init cfg) script).1.canResume) :
+    nC (run (run (run (init cfg) script).1 cutAndReconnect).1 fl.script).2 = 1 ∧
+    nD (run (run (run (init cfg) script).1 cutAndReconnect).1 fl.script).2 = 0 ∧
+    isConnected (run (run (run (init cfg) script).1 cutAndReconnect).1 fl.script).1 = true ∧
+    (run (run (run (init cfg) script).1 cutAndReconnect).1 fl.script).1.authenticated = true ∧
+    (∀ k, k < fl.script.length →
+      nC (run (run (run (init cfg) script).1 cutAndReconnect).1 (fl.script.take k)).2 = 0 ∧
+      nD (run (run (run (init cfg) script).1 cutAndReconnect).1 (fl.script.take k)).2 = 0 ∧
+      isConnected (run (run (run (init cfg) script).1 cutAndReconnect).1 (fl.script.take k)).1 = false) := by
+  have hred : (run (init cfg) script).1.redirect = false := run_red script (init cfg) rfl
+  have hcfg : (run (init cfg) script).1.cfg = cfg := run_cfg script (init cfg)
+  have st := start_after_cut _ hc hred
+  rw [hcfg] at st
+  exact opensAtEnd_spec _ _ st.ph.sess (flow_opens fl st happ)
+
+/-- the same for the very first attempt of a fresh client -/
+theorem first_attempt_succeeds (fl : Flow) (cfg : Cfg) (happ : fl.applicable cfg false) :
+    nC (run (init cfg) ([.connectToServer, .socketConnected] ++ fl.script)).2 = 1 ∧
+    isConnected (run (init cfg) ([.connectToServer, .socketConnected] ++ fl.script)).1 = true ∧
+    (run (init cfg) ([.connectToServer, .socketConnected] ++ fl.script)).1.authenticated = true := by
+  have st : Start cfg false (run (init cfg) [.connectToServer, .socketConnected]).1 := by
+    refine ⟨⟨?_, ?_, ?_, ?_, ?_, ?_, ?_, ?_⟩, ?_, ?_, ?_, ?_⟩ <;> simp [run, step, init, handleStart]
+  have h := opensAtEnd_spec _ _ st.ph.sess (flow_opens fl st happ)
+  rw [run_append]
+  dsimp only
+  have h0 : nC (run (init cfg) [.connectToServer, .socketConnected]).2 = 0 := by simp [run, step, init, handleStart]
+  exact ⟨by rw [nC_append, h0, h.1], h.2.2.1, h.2.2.2.1⟩
+
+/-- every flow is applicable for some configuration (non-vacuity), e.g. -/
+example : Flow.scramBind.applicable {} false := by simp [Flow.applicable]
+example : Flow.resumeRefused.applicable { plainOk := true } true := by simp [Flow.applicable]
+example : Flow.sasl2Fast.applicable { fastUa := true, token := true } false := by simp [Flow.applicable]
+example : Flow.tlsSasl2Bind2.applicable { tls := .required, plainOk := true } false := by simp [Flow.applicable]
+
 /-! ### `connected` once per connection, and only at the end -/
 
 /-- **Every cut point of the conforming script.**  After ANY history, cut and reconnect: for every `k`, after the first `k`
@@ -230,8 +274,9 @@ theorem connected_only_when_done (cfg : Cfg) (script : List Ev) (e : Ev) :
   · exact ⟨by omega, fun _ => ⟨h.2.1, h.2.2.1, h.2.2.2, isConnected_of _ h.2.2.2 h.2.2.1⟩⟩
 
 /-- **`connected` at most once per connection — every history of a server that does not restart negotiation inside an
-established session** (`noNegotiationInSession`: no stream header and no stream features while a session is established; the
-only conformance hypothesis).  Scan everything the client did, in order (`alt false`): `connected` is never reported while a
+established session** (`noNegotiationInSession`: while a session is established no stream features, and no stream header that
+would restart XEP-0078 authentication — version-less, on a stream whose version is not recorded, legacy authentication
+enabled; the only conformance hypothesis, and each part is necessary).  Scan everything the client did, in order (`alt false`): `connected` is never reported while a
 session is already reported open, where only `disconnected` closes a session.  By `disconnected_only_when_socket_gone` a
 `disconnected` is reported only by a step that loses the socket, so two `connected` signals always belong to different
 connections.  (The hypothesis is necessary: `openSession` is not guarded, its Q_ASSERT is compiled out in release builds.) -/
@@ -261,6 +306,24 @@ theorem isConnected_means_session_established (cfg : Cfg) (script : List Ev) :
     simp [isConnected] at h
     exact h.2
   · exact run_minv script (init cfg) (by intro h; simp [init] at h)
+
+/-- **`isConnected()` implies authenticated — every history of a server that demands authentication** (`demandsAuth`: a
+features element received while the client is not authenticated always leads it into STARTTLS or into an authentication
+exchange its configuration uses; i.e. the server never offers binding or a bare session to an unauthenticated client).  Also
+while binding, enabling or resuming the client is authenticated. -/
+theorem isConnected_implies_authenticated (cfg : Cfg) (script : List Ev)
+    (hd : Along demandsAuth (init cfg) script) :
+    (isConnected (run (init cfg) script).1 = true → (run (init cfg) script).1.authenticated = true) ∧
+    ((run (init cfg) script).1.sessionStarted = true → (run (init cfg) script).1.authenticated = true) := by
+  have hi : AInv (run (init cfg) script).1 :=
+    run_ainv script (init cfg) ⟨by intro h; simp [init] at h, by intro h; simp [init] at h⟩ (by intro h; simp [init] at h) hd
+  refine ⟨fun h => hi.1 ?_, hi.1⟩
+  simp [isConnected] at h
+  exact h.2
+
+/-- the hypothesis is necessary: a server that offers nothing to authenticate with gets an unauthenticated session -/
+example : let s := (run (init {}) [.connectToServer, .socketConnected, .recv (.header true true), .recv (.features {})]).1
+    isConnected s = true ∧ s.authenticated = false := by decide
 
 /-- the hypothesis of `connected_at_most_once_per_connection` is necessary: features sent into an established session open it
 a second time -/
